@@ -444,16 +444,27 @@ impl Mapping {
     }
 }
 
-impl From<serde_yaml::Mapping> for Mapping {
-    /// Converts a `serde_yaml::Mapping` into a `Mapping`.
-    fn from(m: serde_yaml::Mapping) -> Self {
+impl Mapping {
+    /// Converts a `serde_yaml::Mapping` into a `Mapping`. Returns an error if a key or value
+    /// can't be represented (see [`Value::try_from_yaml`]) or if the mapping writes a key both
+    /// as constant (`=key`) and again after that (`key`).
+    pub(crate) fn try_from_yaml(m: serde_yaml::Mapping) -> Result<Self> {
         let mut new = Self::with_capacity(m.len());
         for (k, v) in m {
-            // we can't have duplicate const keys when converting from a serde_yaml Mapping, so we
-            // can safely unwrap the Result.
-            new.insert(Value::from(k), Value::from(v)).unwrap();
+            new.insert(Value::try_from_yaml(k)?, Value::try_from_yaml(v)?)?;
         }
-        new
+        Ok(new)
+    }
+}
+
+impl From<serde_yaml::Mapping> for Mapping {
+    /// Converts a `serde_yaml::Mapping` into a `Mapping`.
+    ///
+    /// # Panics
+    ///
+    /// Panics if the mapping can't be represented, see [`Mapping::try_from_yaml`].
+    fn from(m: serde_yaml::Mapping) -> Self {
+        Self::try_from_yaml(m).unwrap()
     }
 }
 
@@ -499,7 +510,7 @@ impl std::str::FromStr for Mapping {
     #[inline]
     fn from_str(s: &str) -> Result<Self> {
         let m = serde_yaml::from_str::<serde_yaml::Mapping>(s)?;
-        Ok(Self::from(m))
+        Self::try_from_yaml(m)
     }
 }
 
